@@ -156,7 +156,7 @@ func RunReplay(r io.Reader, rep Replayer, maxFailPerSig int) *Summary {
 		wg.Wait()
 		close(out)
 	}()
-	sum := &Summary{SigCounts: map[string]int{}}
+	sum := &Summary{SigCounts: map[string]int{}, Failures: []*Failure{}, Samples: []json.RawMessage{}}
 	seen := map[[20]byte]bool{}
 	for rs := range out {
 		sum.N++
